@@ -46,8 +46,9 @@ def setup():
     import polyply.src.generate_templates as gt
 
     def mk(orig):
-        def optimize_geometry(block, coords, inter_types=[], *a, **k):
-            ok, out = orig(block, coords, inter_types, *a, **k)
+        def optimize_geometry(block, coords, *a, **k):
+            ok, out = orig(block, coords, *a, **k)
+            inter_types = a[0] if a else k.get("inter_types", [])
             CAP["opt"].append((ok, block, {n: np.array(v, dtype=float) for n, v in out.items()}, list(inter_types)))
             return ok, out
         return optimize_geometry
